@@ -21,7 +21,17 @@ ImageOrNone(c) == IF Len(c.text) <= ImageLimit THEN Image(c) ELSE <<>>
 \* ---- names: "" / ASCII / 2-byte Shift-JIS (hiragana), either few (shared) or distinct per index
 NameFew(i) == CASE i % 3 = 0 -> <<>> [] i % 3 = 1 -> <<65, 110, 105, 109>> [] OTHER -> <<130, 160, 149, 92>>
 NameDistinct(i) == IF i % 2 = 0 THEN <<97 + (i % 26), 48 + ((i \div 26) % 10)>> ELSE <<130, 160 + (i % 80), 48 + (i \div 80)>>
-Name(nm, i) == IF nm = "few" THEN NameFew(i) ELSE NameDistinct(i)
+\* ---- names whose Shift-JIS form is L bytes long: one single-byte character (`tag`), then double-byte characters
+\* (so one of them straddles every even offset such as 64 and 128), then one more single byte if L is even
+LongLens == <<63, 64, 65, 127, 128, 129>>
+LongName(L, tag) ==
+  <<tag>> \o [p \in 1..(2 * ((L - 1) \div 2)) |->
+                IF p % 2 = 1 THEN (IF ((p + 1) \div 2) % 2 = 0 THEN 149 ELSE 130)
+                ELSE (IF (p \div 2) % 2 = 0 THEN 92 ELSE 160)]
+          \o (IF (L - 1) % 2 = 1 THEN <<98>> ELSE <<>>)
+Name(nm, i) == IF nm = "few" THEN NameFew(i)
+              ELSE IF nm = "long" THEN LongName(LongLens[(i % 6) + 1], 97 + (i % 26))
+              ELSE NameDistinct(i)
 
 \* ---- group patterns
 Pat == << {}, {0}, {31}, {0, 31}, { b \in 0..31 : b % 2 = 0 }, 0..31 >>
@@ -58,11 +68,17 @@ Buckets ==
   \cup { [t |-> "none", cb |-> 0, lab |-> FALSE] }
   \cup { [t |-> "two", cb |-> k, lab |-> FALSE] : k \in {1, 2} }
   \cup { [t |-> "three", cb |-> 3, lab |-> FALSE] }
+  \cup { [t |-> "long", cb |-> 0, lab |-> TRUE] }
 ValuesOf(b) ==
   CASE b.t = "one"   -> { MkValue(Combos[b.cb], <<MkSet(a, Combos[b.cb].nm, b.lab)>>) : a \in Assignments }
     [] b.t = "none"  -> { [meta |-> m, clips |-> Clips(ck, "few"), sets |-> <<>>] :
                             m \in {NoStr, Str(<<>>), Str(<<109>>)}, ck \in {"none", "sparse", "alt", "dense"} }
     [] b.t = "two"   -> { MkValue(Combos[b.cb], <<Pool6(Combos[b.cb].nm)[i], Pool6(Combos[b.cb].nm)[j]>>) : i \in 1..6, j \in 1..6 }
+    [] b.t = "long"  -> { [meta |-> Str(LongName(65, 109)), clips |-> Clips(ck, "long"),
+                             sets |-> << [label |-> Str(LongName(129, 76)), slots |-> SlotsFrom(a, "long")],
+                                         [label |-> Str(LongName(64, 77)), slots |-> SlotsFrom(AllEmpty, "long")] >>] :
+                            ck \in {"sparse", "alt"},
+                            a \in { [AllEmpty EXCEPT ![3] = 4], [AllEmpty EXCEPT ![0] = 6], [g \in 0..7 |-> 5], [AllEmpty EXCEPT ![7] = 3, ![1] = 2] } }
     [] b.t = "three" -> { MkValue(Combos[b.cb], <<Pool6("few")[i], Pool6("few")[j], Pool6("few")[k]>>) :
                             i \in {1, 2, 3}, j \in {1, 2, 3}, k \in {1, 2, 3} }
 
